@@ -148,6 +148,43 @@ def gen_instances(classes: Classes, idxs, per_class: int, rng: random.Random, bi
                            default_prob=[0.0, 0.3, 0.6, 1.0][k % 4] if k < 4 else None)
             out.append((i, a, values.build(a, c)))
     out.extend(_implicit_default_instances(classes, idxs, g))
+    out.extend(_special_text_instances(classes, idxs, g))
+    return out
+
+
+SPECIAL_TEXTS = ["\ufeffclient-1", "\ufeff", "a\u2028b", "\u2029", "x\u0085y", "line\n", " padded ", "\x00", "\r\n", "tab\t",
+                 "\ufeff\ufeff", "\U0001f680", "e\u0301"]
+
+
+def _special_text_instances(classes, idxs, g):
+    """one more instance per class with string fields: each top-level string field holds a text that
+    codecs, `str` methods or line handling treat specially (leading BOM, line/paragraph separators, NEL,
+    NUL, trailing newline, surrounding blanks, astral and combining characters)"""
+    import dataclasses
+
+    out = []
+    for i in idxs:
+        c = classes.cls(i)
+        fs = dataclasses.fields(c)
+        sj = [j for j, f in enumerate(fs) if f.metadata.get("kafka_type") == "string"]
+        if not sj:
+            continue
+        a = g.instance(c, budget=5, default_prob=0.2)
+        vals = list(a[1])
+        changed = False
+        bom = ["\ufeffclient-1", "\ufeff", "\ufeff\ufeff"]
+        for n, j in enumerate(sj):
+            if vals[j][0] in ("S", "N"):       # (a nullable string that happened to be None gets a text too)
+                # the first string field of every class starts with a byte-order mark; the others rotate
+                t = bom[i % 3] if n == 0 else SPECIAL_TEXTS[(i + n) % len(SPECIAL_TEXTS)]
+                vals[j] = ("S", t.encode())
+                changed = True
+        if changed:
+            a = ("E", vals)
+            try:
+                out.append((i, a, values.build(a, c)))
+            except Exception:  # noqa: BLE001
+                pass
     return out
 
 
